@@ -85,7 +85,7 @@ def small_trees(rng, n, depth=2):
     pool = atoms()
     out = []
     for _ in range(n):
-        out.append(tree(rng, pool, depth))
+        out.append(dedupe_keys(tree(rng, pool, depth)))
     return out
 
 
@@ -146,3 +146,100 @@ def from_json(x):
     if isinstance(x, dict):
         return O(*[(S(k.encode("utf-8")), from_json(v)) for k, v in x.items()])
     raise ValueError(x)
+
+
+def variant(rng, v, depth=3):
+    """a value that is `==` to v but (where possible) represented differently: other number representation,
+    other sign of zero, byte vs text string, permuted object entries; recursively"""
+    if not isinstance(v, list) or not v:
+        return v
+    t = v[0]
+    if t in ("I", "B"):
+        z = int(v[1])
+        opts = [["B", str(z)]]
+        if ISIZE_MIN <= z <= ISIZE_MAX:
+            opts.append(["I", str(z)])
+        if abs(z) <= 2 ** 53:
+            opts.append(F(float(z)))
+            opts.append(D("%d.0" % z))
+            opts.append(D("%de0" % z))
+            if z == 0:
+                opts += [NEG_ZERO, D("-0.0")]
+        return rng.choice(opts)
+    if t == "F":
+        bits = int(v[1], 16)
+        if bits in (0, 1 << 63):
+            return rng.choice([F(0.0), NEG_ZERO, I(0), B(0), D("0.00")])
+        f = struct.unpack(">d", bytes.fromhex(v[1]))[0]
+        if f in (float("inf"), float("-inf")):
+            return rng.choice([v, D("1e999" if f > 0 else "-1e999")])
+        if f != f:
+            return v
+        if f == int(f) and abs(f) <= 2 ** 53:
+            return rng.choice([I(int(f)), B(int(f)), v, D(repr(f))])
+        return rng.choice([v, D(repr(f))])
+    if t == "D":
+        return v
+    if t == "S":
+        return rng.choice([v, ["Y", v[1]]])
+    if t == "Y":
+        return rng.choice([v, ["S", v[1]]])
+    if t == "A":
+        return ["A"] + [variant(rng, x, depth - 1) for x in v[1:]]
+    if t == "O":
+        ents = [[variant(rng, kv[0], depth - 1), variant(rng, kv[1], depth - 1)] for kv in v[1:]]
+        rng.shuffle(ents)
+        return ["O"] + ents
+    return v
+
+
+def canon(v):
+    """Python-side canonical form: equal under jq's == (on the NaN-free, exactly-representable domain) iff same canon"""
+    from fractions import Fraction
+    if not isinstance(v, list):
+        return v
+    t = v[0]
+    if t in ("I", "B"):
+        return ("n", Fraction(int(v[1])))
+    if t == "F":
+        f = struct.unpack(">d", bytes.fromhex(v[1]))[0]
+        if f != f:
+            return ("nan",)
+        if f in (float("inf"), float("-inf")):
+            return ("inf", f > 0)
+        return ("n", Fraction(f))
+    if t == "D":
+        try:
+            f = float(v[1].decode())
+        except Exception:
+            return ("nan",)
+        if f in (float("inf"), float("-inf")):
+            return ("inf", f > 0)
+        return ("n", Fraction(f))
+    if t in ("S", "Y"):
+        return ("s", v[1])
+    if t == "A":
+        return ("a",) + tuple(canon(x) for x in v[1:])
+    if t == "O":
+        return ("o", frozenset((canon(kv[0]), canon(kv[1])) for kv in v[1:]))
+    return v
+
+
+def dedupe_keys(v):
+    """drop object entries whose key is == to an earlier key (recursively)"""
+    if not isinstance(v, list) or not v:
+        return v
+    if v[0] == "A":
+        return ["A"] + [dedupe_keys(x) for x in v[1:]]
+    if v[0] == "O":
+        seen = set()
+        out = ["O"]
+        for kv in v[1:]:
+            k = dedupe_keys(kv[0])
+            c = canon(k)
+            if c in seen:
+                continue
+            seen.add(c)
+            out.append([k, dedupe_keys(kv[1])])
+        return out
+    return v
